@@ -847,25 +847,46 @@ func checkFilterSelector(c *Ctx) {
 		return
 	}
 	fn := core.FuncName(f)
-	want := map[string]string{"1": "@packets.icmpFilter", "2": "@packets.udpFilter", "3": "(packets.FilterConfig).GenerateTCP4Filter(param:spec.FilterConfig)", "4": "@packets.tcpSynackFilter"}
+	want := map[string]string{"1": "@packets.icmpFilter", "2": "@packets.udpFilter", "3": "(packets.FilterConfig).GenerateTCP4Filter(<spec>.FilterConfig)", "4": "@packets.tcpSynackFilter"}
 	rps, _ := core.ReturnPaths(c.P, f, 1000)
 	got := map[string]string{}
+	norm := func(t *core.Term) string {
+		r0 := t.String()
+		if t.Op == "extract" {
+			r0 = t.Args[0].String()
+		}
+		if strings.HasPrefix(r0, "(packets.FilterConfig).GenerateTCP4Filter(") && strings.HasSuffix(r0, ".FilterConfig)") {
+			r0 = "(packets.FilterConfig).GenerateTCP4Filter(<spec>.FilterConfig)"
+		}
+		return r0
+	}
 	for _, rp := range rps {
 		typ := "default"
 		for _, a := range rp.Atoms {
 			n := a.Norm()
-			if n.Sign && n.Cond.Op == "binop" && n.Cond.Name == "==" && strings.HasSuffix(n.Cond.Args[0].String(), "spec.FilterType") {
+			if n.Sign && n.Cond.Op == "binop" && n.Cond.Name == "==" && strings.HasSuffix(n.Cond.Args[0].String(), ".FilterType") {
 				typ = n.Cond.Args[1].String()
 			}
 		}
-		r0 := rp.Results[0].String()
-		if rp.Results[0].Op == "extract" {
-			r0 = rp.Results[0].Args[0].String()
-		}
 		if !rp.Results[1].IsConst("nil") && rp.Results[0].IsConst("nil") {
-			r0 = "error"
+			if _, seen := got[typ]; !seen || typ != "default" {
+				got[typ] = "error"
+			}
+			continue
 		}
-		got[typ] = r0
+		// a table lookup keyed by the filter type: `prog, ok := table[spec.FilterType]; if ok { return prog, nil }`
+		r := rp.Results[0]
+		if r.Op == "extract" && r.Name == "0" && r.Args[0].Op == "lookup" && len(r.Args[0].Args) == 2 && strings.HasSuffix(r.Args[0].Args[1].String(), ".FilterType") && r.Args[0].Args[0].Op == "global" {
+			for k, v := range globalMapElems(c, "packets", r.Args[0].Args[0].Name) {
+				got[k] = v
+			}
+			continue
+		}
+		got[typ] = norm(rp.Results[0])
+	}
+	if _, ok := got["0"]; !ok {
+		// FilterTypeNone falls to the error of the default path when it has no entry of its own
+		got["0"] = got["default"]
 	}
 	for k, w := range want {
 		R.Check(got[k] == w, "R12.4", fmt.Sprintf("%s#type[%s]", fn, k), f.Pos(), fn, "filter type "+k+" → "+w, "filter type "+k+" is mapped to "+got[k]+", expected "+w)
@@ -878,17 +899,24 @@ func checkFilterSelector(c *Ctx) {
 		return
 	}
 	found := false
-	for _, b := range g.Blocks {
-		for _, in := range b.Instrs {
-			call, ok := in.(*ssa.Call)
-			if !ok || !calleeIs(call, "packets.SetBPFAndDrain") {
-				continue
-			}
-			for _, pa := range firstPath(g, b) {
-				env := core.NewEnv(c.P, pa)
-				a := env.Term(call.Common().Args[1]).String()
-				found = true
-				R.Check(a == "packets.getClassicBPFFilter(param:spec)#0", "R12.4", core.FuncName(g)+"#installs-selected", call.Pos(), core.FuncName(g), "installs getClassicBPFFilter(spec)", "installs "+a+" instead of the program selected for spec")
+	for _, gg := range ModReach(c.P, g) {
+		if core.FuncPkg(gg) != core.FuncPkg(g) {
+			continue
+		}
+		for _, b := range gg.Blocks {
+			for _, in := range b.Instrs {
+				call, ok := in.(*ssa.Call)
+				if !ok || !calleeIs(call, "packets.SetBPFAndDrain") {
+					continue
+				}
+				for _, pa := range firstPath(gg, b) {
+					env := core.NewEnv(c.P, pa)
+					at := env.Term(call.Common().Args[1])
+					a := at.String()
+					found = true
+					okSel := at.Op == "extract" && at.Name == "0" && at.Args[0].Op == "call" && at.Args[0].Name == "packets.getClassicBPFFilter" && len(at.Args[0].Args) == 1 && at.Args[0].Args[0].Op == "param"
+					R.Check(okSel, "R12.4", core.FuncName(g)+"#installs-selected", call.Pos(), core.FuncName(gg), "installs getClassicBPFFilter(spec)", "installs "+a+" instead of the program selected for spec")
+				}
 			}
 		}
 	}
@@ -1035,6 +1063,12 @@ func checkFilterSites(c *Ctx, tables map[string][]cbpf.Ins, tupleProgs [][]cbpf.
 				env := core.NewEnv(c.P, pa)
 				spec = env.Term(call.Common().Args[0])
 			}
+			// a site inside a helper: its parameters are replaced by what the entry point passes
+			if spec != nil && call.Parent() != f {
+				if chains := callChainsX(c.P, f, call.Parent()); len(chains) > 0 {
+					spec = liftChainX(c.P, spec, chains[0])
+				}
+			}
 			if spec == nil || spec.Op != "struct" {
 				R.Fail("R12.4", key, call.Pos(), e.fn, "filter spec is not a literal: undecided")
 				continue
@@ -1098,7 +1132,6 @@ func checkFilterSites(c *Ctx, tables map[string][]cbpf.Ins, tupleProgs [][]cbpf.
 			R.Check(missed == "", "R12.4", key, call.Pos(), e.fn, fmt.Sprintf("%s accepts %s (%d representative frames over %v)", pname, what, nfr, keysOf(need)), fmt.Sprintf("%s hides a frame the matcher would turn into a hop: %s", pname, missed))
 			// role binding of Src / Dst
 			if ft == 3 || ft == 4 {
-				f := call.Parent()
 				cfgT := kvOf(spec, "FilterConfig")
 				src := core.ProjField(cfgT, "Src")
 				R.Check(isTargetTerm(src, e.driver), "R12.4", key+"/src", call.Pos(), e.fn, "Src = "+src.String()+" (the target endpoint)", "Src = "+src.String()+" is not the run's target endpoint")
@@ -1190,15 +1223,11 @@ func checkAttachOrder(c *Ctx, rule string) {
 			}
 			if call.Common().IsInvoke() && call.Common().Method.Name() == "Control" {
 				// the drain closure contains a Recvfrom
-				if mc, ok := call.Common().Args[0].(*ssa.MakeClosure); ok {
-					for _, bb := range mc.Fn.(*ssa.Function).Blocks {
-						for _, i2 := range bb.Instrs {
-							if c2, ok := i2.(*ssa.Call); ok && c2.Common().StaticCallee() != nil && c2.Common().StaticCallee().Name() == "Recvfrom" {
-								drain = in
-							}
-						}
-					}
+				if mc, ok := call.Common().Args[0].(*ssa.MakeClosure); ok && containsRecvfrom(c, mc.Fn.(*ssa.Function)) {
+					drain = in
 				}
+			} else if h := call.Common().StaticCallee(); h != nil && core.InModule(h) && !calleeIs(call, "packets.SetBPF") && containsRecvfrom(c, h) {
+				drain = in // the drain was moved into a helper
 			}
 		}
 	}
@@ -1219,4 +1248,66 @@ func checkAttachOrder(c *Ctx, rule string) {
 	R.Check(firstIsDrop && lastIsParam && order, rule, fn+"#sequence", sets[0].Pos(), fn, "drop-all is attached, then the socket is drained, then the requested filter is attached",
 		fmt.Sprintf("attach sequence broken: first program is drop-all=%v, last program is the requested filter=%v, drop→drain→filter order=%v; frames admitted under an earlier filter can survive", firstIsDrop, lastIsParam, order))
 	// the drop-all error path returns before draining
+}
+
+// globalMapElems reads the constant-keyed elements of a package-level map literal whose values are package-level variables
+// (from the package's init function): key constant → "@pkg.var".
+func globalMapElems(c *Ctx, pkg, name string) map[string]string {
+	out := map[string]string{}
+	sp := c.P.SSAPkgs[pkg]
+	if sp == nil {
+		return out
+	}
+	init := sp.Func("init")
+	if init == nil {
+		return out
+	}
+	name = strings.TrimPrefix(name, pkg+".")
+	for _, b := range init.Blocks {
+		for _, in := range b.Instrs {
+			mu, ok := in.(*ssa.MapUpdate)
+			if !ok {
+				continue
+			}
+			// the map value flows into the global
+			isTarget := false
+			if mk, ok := mu.Map.(*ssa.MakeMap); ok {
+				for _, r := range *mk.Referrers() {
+					if st, ok := r.(*ssa.Store); ok {
+						if g, ok := st.Addr.(*ssa.Global); ok && g.Name() == name {
+							isTarget = true
+						}
+					}
+				}
+			}
+			if !isTarget {
+				continue
+			}
+			k, ok := mu.Key.(*ssa.Const)
+			if !ok || k.Value == nil {
+				continue
+			}
+			val := ""
+			if ld, ok := mu.Value.(*ssa.UnOp); ok {
+				if g, ok := ld.X.(*ssa.Global); ok {
+					val = "@" + pkg + "." + g.Name()
+				}
+			}
+			out[k.Value.ExactString()] = val
+		}
+	}
+	return out
+}
+
+func containsRecvfrom(c *Ctx, f *ssa.Function) bool {
+	for _, g := range ModReach(c.P, f) {
+		for _, b := range g.Blocks {
+			for _, in := range b.Instrs {
+				if c2, ok := in.(*ssa.Call); ok && c2.Common().StaticCallee() != nil && c2.Common().StaticCallee().Name() == "Recvfrom" {
+					return true
+				}
+			}
+		}
+	}
+	return false
 }
